@@ -427,6 +427,10 @@ fn fill_time(t: &TSpec, r: &mut Rng) -> Option<NaiveTime> {
             f as u64 * unit + pick(r, unit - 1)
         }
     };
+    if s == 60 {
+        // chrono's representation of the leap second hh:mm:60.f
+        return NaiveTime::from_hms_micro_opt(t.h as u32, m as u32, 59, 1_000_000 + f as u32);
+    }
     NaiveTime::from_hms_micro_opt(t.h as u32, m as u32, s as u32, f as u32)
 }
 
